@@ -1638,10 +1638,62 @@ func flatMapAutomaton(c *core.Ctx, fn *ssa.Function, an *ir.Analysis, isCtor boo
 	return ""
 }
 
+// valueSource: the element a combinator shows is the element its underlying iterator is positioned on: for every
+// iterator type of the package that wraps another iterator, Value (and Key) is promoted through / forwarded to the
+// wrapped iterator - except the mapping type, whose own Value is decided by map-value. A method declared on a
+// combinator type (in any file of the package) that shadows the promoted one is an element source no rule has read.
+func valueSource(c *core.Ctx, pkg string, mapType *types.Named) {
+	sh := pkgShort(pkg)
+	if c.Rules["value-source"] == nil {
+		c.Doc("value-source", 4, "Value/Key of a wrapping combinator come from the wrapped iterator (promoted or forwarded); only the mapping type computes its own Value")
+	}
+	pk := c.W.Pkgs[pkg]
+	if pk == nil {
+		return
+	}
+	sc := pk.Types.Scope()
+	for _, n := range sc.Names() {
+		tn, ok := sc.Lookup(n).(*types.TypeName)
+		if !ok {
+			continue
+		}
+		nt, ok := tn.Type().(*types.Named)
+		if !ok {
+			continue
+		}
+		st, ok := nt.Underlying().(*types.Struct)
+		if !ok || len(iterFieldsOf(nt)) == 0 {
+			continue
+		}
+		for _, m := range []string{"Value", "Key"} {
+			obj, idx, _ := types.LookupFieldOrMethod(nt, true, pk.Types, m)
+			if obj == nil {
+				continue
+			}
+			name := sh + "." + n + "." + m
+			switch {
+			case len(idx) > 1:
+				c.Ok("value-source", name, tn.Pos(), "promoted through field "+st.Field(idx[0]).Name())
+			case mapType != nil && m == "Value" && types.Identical(nt.Origin(), mapType.Origin()):
+				c.Ok("value-source", name, tn.Pos(), "the mapping type's own Value (map-value)")
+			default:
+				if fm := iterMethod(c, nt, m); fm != nil {
+					if f := forwardsTo(c, fm); f != "" {
+						c.Ok("value-source", name, tn.Pos(), "forwards to field "+f)
+						continue
+					}
+					c.Fail("value-source", name, fm.Pos(), "%s declares its own %s, which shadows the one promoted from the wrapped iterator: what the combinator shows is no longer the element its underlying iterator is positioned on (only the mapping type computes a value of its own)", n, m)
+				}
+			}
+		}
+	}
+}
+
 func mapRules(c *core.Ctx, pkg string, pair bool) {
 	sh := pkgShort(pkg)
 	ctor, nt := ctorAndType(c, pkg, "Map")
 	name := sh + ".Map"
+	valueSource(c, pkg, nt)
 	if ctor == nil || nt == nil {
 		c.Undecided("map-value", name, 0, "constructor or its type not found")
 		return
